@@ -33,7 +33,7 @@ class Contract:
     """
 
     def __init__(self, target, params, result=None, requires=None, ensures=None, raises=(), modifies=(), loops=None,
-                 spec_fns=None, inline=False, inline_callees=(), props=(), note="", trusted=False, witness=None, exposes=None, defines=None, ghost=None, locals=None, let_abstraction=True, adapt=None, instance=None):
+                 spec_fns=None, inline=False, inline_callees=(), props=(), note="", trusted=False, witness=None, exposes=None, defines=None, ghost=None, locals=None, let_abstraction=True, adapt=None, instance=None, axioms=None, ghost_locals=None):
         self.target = target
         self.module, self.qual = target.split(":")
         self.params = dict(params)
@@ -55,6 +55,8 @@ class Contract:
         self.ghost = dict(ghost or {})      # {"after:<statement source, whitespace-normalised>": hook(engine, env)}: ghost updates (may only write ghost fields)
         self.locals = dict(locals or {})    # declared types of locals that start as empty literals
         self.let_abstraction = let_abstraction     # False: keep large array entries expanded (specs that mirror the code term by term)
+        self.axioms = list((axioms or {}).items())      # mathematical facts assumed inside the body proof (not required of callers); each is listed as an assumption
+        self.ghost_locals = dict(ghost_locals or {})   # {name: type}: ghost variables of the body (arbitrary initial value; written by ghost hooks only)
         self.instance = instance   # distinguishes several contracts of one function (separate ledger entries)
         self.adapt = adapt     # replay only: concretised arguments (plain data) -> arguments of the real call (e.g. a record to the real class)
         self.exposes = dict(exposes or {})   # callee locals named in `ensures`: existentially quantified (fresh) at call sites
@@ -115,11 +117,22 @@ def verify_function(contract, registry, label_prefix="", feas_timeout_ms=250):
             eng.entry_env0 = entry
             for name, req in contract.requires:
                 eng.assume(eng.spec_eval(req, env, old_env=entry))
+            for gname, gtype in contract.ghost_locals.items():
+                env[gname] = eng.fresh(f"ghost_{gname}", gtype)
+            for name, ax in contract.axioms:
+                eng.assume(eng.spec_eval(ax, env, old_env=entry))
+            is_gen = source.is_generator(fnode)
+            if is_gen:
+                from .types import CList as _CL, to_slist as _tsl
+                yt = contract.locals.get("__yield__")
+                env["__yield__"] = _tsl(_CL(), yt.t) if yt is not None else _CL()
             result, raised = None, None
             try:
                 eng.ex_block(fnode.body)
+                if is_gen:
+                    result = eng.frames[0].env["__yield__"]
             except ReturnEx as r:
-                result = r.value
+                result = eng.frames[0].env["__yield__"] if is_gen else r.value
             except PyRaise as e:
                 raised = e
                 del eng.frames[1:]
